@@ -1,6 +1,6 @@
 (* C04 - Emitted assembly is closed: labels unique, references resolved, no run-off. *)
 From Coq Require Import List ZArith Bool.
-From Pory Require Import Lexer Ast Emitter EmitProps.
+From Pory Require Import Lexer Ast Emitter EmitProps Worklist WorkRefs.
 Import ListNotations.
 
 (* PARTIAL: every target of a generated jump / case of a script is a registered chunk label: the renderer emits the
@@ -18,3 +18,16 @@ Theorem chunk_statements_printed_once :
   forall mp ss, filter is_cmd_or_label (flat_map (render_stmt mp) ss) = flat_map stmt_instr ss.
 Proof. exact render_stmts_filter. Qed.
 Print Assumptions chunk_statements_printed_once.
+
+
+(* ---------- generated references resolve (worklist invariant, no validator) ---------- *)
+(* In the chunk graph the emitter builds for a script body that passes the source check (a theorem for every accepted
+   program: Properties_C01.accepted_bodies_are_src_ok), every chunk id a branch refers to - the target of a generated goto,
+   the success / failure edge of a condition, a switch case or default entry, a break / continue destination, the chunk a
+   block returns to - is -1 (rendered as 'return', never as a label) or the id of a chunk of that graph; ids are distinct
+   (Properties_C01.worklist_establishes_tr_block).  So every generated label that is referenced is defined once. *)
+Theorem generated_targets_resolve :
+  forall body w, emit_graph body = Ok w -> src_ok body ->
+  forall c, In c (finals w) -> forall d, In d (targets c) -> d = (-1)%Z \/ exists c', In c' (finals w) /\ cid c' = d.
+Proof. exact WorkRefs.generated_targets_resolve. Qed.
+Print Assumptions generated_targets_resolve.
